@@ -185,6 +185,31 @@ func c08ASTs(quick bool) []refxp.Expr {
 		call("sum", abs(ds(child("*")))), call("substring", lit("12345"), num("2"), num("3")), call("substring", lit("12345"), bin("+", num("1"), num("1"))), call("true"), call("concat", lit("a")), call("count"), call("count", num("1")),
 		call("nosuch"), call("string", bin("=", num("1"), num("1"))), call("string", bin("<", num("1"), num("2"))), call("floor", bin("div", num("7"), num("2"))), call("translate", lit("bar"), lit("abc"), lit("ABC")),
 		call("contains", call("string", abs(ds(child("a")))), lit("2")), call("boolean", abs(ds(child("zz")))), call("id", lit("x")))
+	// every argument of a call is an independent expression evaluated in the
+	// context of the call: context-dependent expressions in every argument slot
+	argAlpha := []func() refxp.Expr{
+		func() refxp.Expr { return rel(child("a")) }, func() refxp.Expr { return rel(child("b")) }, func() refxp.Expr { return rel(dot()) }, func() refxp.Expr { return rel(attr("x")) },
+		func() refxp.Expr { return lit("2") }, func() refxp.Expr { return call("string-length", rel(dot())) }, func() refxp.Expr { return call("name") }, func() refxp.Expr { return abs(ds(child("b"))) },
+		func() refxp.Expr { return rel(dotdot(), child("*")) }, func() refxp.Expr { return num("1") },
+	}
+	for _, f2 := range []string{"concat", "contains", "starts-with", "substring-before", "substring-after", "substring"} {
+		for _, a1 := range argAlpha {
+			for _, a2 := range argAlpha {
+				c2 := call(f2, a1(), a2())
+				add(abs(ds(child("*", bin("=", c2, c2)))), call("count", abs(ds(child("*", c2)))), abs(child("*"), &refxp.Step{Form: refxp.FormCall, Call: c2}))
+			}
+		}
+	}
+	for _, a1 := range argAlpha[:6] {
+		for _, a2 := range argAlpha[:6] {
+			for _, a3 := range argAlpha[:6] {
+				if quick && len(out)%2 == 1 {
+					continue
+				}
+				add(abs(ds(child("*", bin("!=", call("translate", a1(), a2(), a3()), lit(""))))), call("concat", a1(), a2(), a3()), abs(ds(child("a", call("substring", a1(), a2(), a3())))))
+			}
+		}
+	}
 	// parenthesised primaries
 	add(&refxp.Paren{X: num("1")}, &refxp.Paren{X: &refxp.Paren{X: num("1")}}, bin("*", &refxp.Paren{X: bin("+", num("1"), num("2"))}, num("3")), bin("-", num("7"), &refxp.Paren{X: bin("-", num("2"), num("3"))}),
 		bin("div", num("7"), &refxp.Paren{X: bin("div", num("2"), num("3"))}), filt(&refxp.Paren{X: rel(child("a"))}, nil), bin("=", &refxp.Paren{X: bin("=", num("1"), num("2"))}, num("0")))
